@@ -28,6 +28,15 @@ def reachable(shx):
 
 
 def check_state(ctx, shx, case, deleted, names_too=True):
+    try:
+        return check_state_(ctx, shx, case, deleted, names_too)
+    except Exception as e:
+        common.add_violation(ctx, 'the atom list holds something that does not behave like an atom of the file (inspecting it raises)', case, 'atoms of the file',
+                             '%s: %s; atom list: %s' % (type(e).__name__, e, [getattr(a, 'name', '?') for a in shx.atoms.all_atoms][:12]))
+        return False
+
+
+def check_state_(ctx, shx, case, deleted, names_too=True):
     from shelxfile.atoms.atom import Atom
     ats = shx.atoms.all_atoms
     ids = []
@@ -153,6 +162,33 @@ def run(ctx):
             diff = [key for key in a if a[key] != b[key]]
             common.add_violation(ctx, 're-reading another file on a used object gives a different model than a fresh object', {'text': text, 'history': h.log, 'second_text': other},
                                  'identical', {'differs_in': diff, 'fresh': str([a[d] for d in diff])[:200], 'reused': str([b[d] for d in diff])[:200]})
+        # ... also when the second read fails: a file that cannot be decoded (read_file() returns without a model) or does not exist
+        if k % 4 == 0:
+            import os as _os, tempfile as _tf
+            from shelxfile.shelx.shelx import Shelxfile as _S
+            d_ = _tf.mkdtemp(prefix='verif-c08-')
+            try:
+                badp = _os.path.join(d_, 'latin1.res')
+                open(badp, 'wb').write(other.replace('TITL', 'TITL \u00e4\u00f6', 1).encode('latin-1'))
+                for what, path in (('a file that cannot be decoded', badp), ('a missing file', _os.path.join(d_, 'nothing.res'))):
+                    outcomes = []
+                    for obj in (_S(), shx):
+                        try:
+                            with __import__('contextlib').redirect_stdout(__import__('io').StringIO()):
+                                obj.read_file(path)
+                            res_ = 'returned'
+                        except Exception as e_:
+                            res_ = type(e_).__name__
+                        outcomes.append((res_, len(obj._reslist), len(obj.atoms.all_atoms), sorted(obj.delete_on_write), obj.R1, getattr(obj.cell, 'a', None) if obj.cell else None,
+                                         len(list(obj.restraints)), obj.titl if hasattr(obj, 'titl') else None))
+                    ev += 1
+                    if outcomes[0] != outcomes[1]:
+                        common.add_violation(ctx, 'reading %s on a used object leaves another state than on a fresh object' % what, {'text': text, 'history': h.log},
+                                             str(outcomes[0]), str(outcomes[1]))
+                    with __import__('contextlib').redirect_stdout(__import__('io').StringIO()):
+                        shx.read_string(other)      # a model again for the next attempt
+            finally:
+                __import__('shutil').rmtree(d_, ignore_errors=True)
         if k < 1:
             common.sample(ctx, {'history': [str(x) for x in h.log], 'positions': look[:8]})
     # class-level shared data: the model of a file does not depend on what was read before in the same process
